@@ -35,6 +35,48 @@ def message_constructions(fs):
                     out.setdefault(m.group(1), []).append((b, c.bb, 'constructor-call'))
     return out
 
+_MB_CACHE = {}
+def message_builders(fs):
+    """crate functions that return an error::Error / error::Message by value -> set of Message variants they can build
+    (their own aggregates plus, transitively, those of the builders they call)"""
+    key = id(fs)
+    if key in _MB_CACHE:
+        return _MB_CACHE[key]
+    own = {}; calls = {}
+    for b in fs.bodies.values():
+        if b.kind == 'closure' or b.local_ty(0) not in ('error::Error', 'error::Message'):
+            continue
+        vs = set(); cs = set()
+        for x in fs.family(b):
+            for i, k, st in x.stmts():
+                if st['k'] == 'assign' and st['rv']['k'] == 'agg' and st['rv'].get('adt') == 'error::Message':
+                    vs.add(st['rv']['variant'])
+            for c in x.calls():
+                cs |= set(c.names)
+        own[b.path] = vs; calls[b.path] = cs
+    changed = True
+    while changed:
+        changed = False
+        for p_, cs in calls.items():
+            for n in cs:
+                if n in own and n != p_ and not own[n] <= own[p_]:
+                    own[p_] |= own[n]; changed = True
+    _MB_CACHE[key] = own
+    return own
+
+def built_messages(fs, body):
+    """(bb, variant) of every error::Message the body builds itself or obtains from a helper that returns Error/Message"""
+    out = []
+    for i, k, st in body.stmts():
+        if st['k'] == 'assign' and st['rv']['k'] == 'agg' and st['rv'].get('adt') == 'error::Message':
+            out.append((i, st['rv']['variant']))
+    mb = message_builders(fs)
+    for c in body.calls():
+        for n in c.names:
+            if n in mb:
+                out += [(c.bb, v) for v in sorted(mb[n])]
+    return out
+
 def result_calls(body):
     out = []
     for c in body.calls():
